@@ -4,6 +4,7 @@ package harness
 
 import (
 	"bytes"
+	"context"
 	"encoding/json"
 	"fmt"
 	"io/ioutil"
@@ -76,12 +77,22 @@ type RPCError struct {
 // Call performs one JSON-RPC request. A transport failure is returned as err;
 // an error response as rpcErr.
 func (a *API) Call(method string, params interface{}) (json.RawMessage, *RPCError, error) {
+	return a.CallCtx(context.Background(), method, params)
+}
+
+// CallCtx is Call with a context: cancelling it closes the client's connection.
+func (a *API) CallCtx(ctx context.Context, method string, params interface{}) (json.RawMessage, *RPCError, error) {
 	req := map[string]interface{}{"jsonrpc": "2.0", "id": 1, "method": method}
 	if params != nil {
 		req["params"] = params
 	}
 	body, _ := json.Marshal(req)
-	resp, err := a.hc.Post("http://"+a.Addr+"/v1", "application/json", bytes.NewReader(body))
+	hreq, err := http.NewRequestWithContext(ctx, "POST", "http://"+a.Addr+"/v1", bytes.NewReader(body))
+	if err != nil {
+		return nil, nil, err
+	}
+	hreq.Header.Set("Content-Type", "application/json")
+	resp, err := a.hc.Do(hreq)
 	if err != nil {
 		return nil, nil, err
 	}
